@@ -34,11 +34,6 @@ def ExtraAnnOK (extra : List (List String)) : Prop :=
 /-- the part of an annotation name before the first `/` (`key.split('/', 1)[0]`), if there is a `/`. -/
 def pfx (key : String) : Option (List Char) := (splitSlash key.toList).map (·.1)
 
-/-- the prefix is `kopf.zalando.org` or a sub-domain of it (the two last rules of
-    `_detect_marked_prefixes`): such a prefix is marked by every key under it. -/
-def knownish (p : List Char) : Bool :=
-  knownPrefixes.any (fun kp => kp.toList == p) || knownPrefixes.any (fun kp => ('.' :: kp.toList).isSuffixOf p)
-
 /-- the prefix `p0` of the annotation `k0` is marked as a Kopf operator's independently of `k0`'s own
     presence: it is `kopf.zalando.org`/a sub-domain, or another annotation of `A` (e.g. the
     `<prefix>/kopf-managed` marker) marks it. -/
@@ -119,7 +114,7 @@ def diffbaseFields : DiffBaseCfg → List (List String)
 def progressFields : ProgressCfg → List (List String)
   | [] => []
   | .annotations _ :: ls => progressFields ls
-  | .status f :: ls => f :: progressFields ls
+  | .status f t :: ls => f :: t :: progressFields ls
 
 /-- the annotation prefixes of the configured storages (diff-base and progress). -/
 def leafPrefixes : DiffBaseLeaf → List String
@@ -133,7 +128,7 @@ def diffbasePrefixes : DiffBaseCfg → List String
 def progressPrefixes : ProgressCfg → List String
   | [] => []
   | .annotations p :: ls => p :: progressPrefixes ls
-  | .status _ :: ls => progressPrefixes ls
+  | .status _ _ :: ls => progressPrefixes ls
 
 /-- the leaf storages of a diff-base configuration. -/
 def diffbaseLeaves : DiffBaseCfg → List DiffBaseLeaf
